@@ -9,7 +9,7 @@ from ..sched import Sched, CoopLock, Deadlock, Divergence
 
 LEVEL = 'model_checking'
 ENGINE = 'SCHED+SEQ'
-TECHNIQUE = 'stateless model checking of the real registry code: every interleaving of 2-3 threads up to a preemption bound (line-level switch points, cooperative lock), plus every operation history up to a depth bound against a set model, listed from the creating thread and from a freshly started one'
+TECHNIQUE = 'stateless model checking of the real registry code: every interleaving of 2-3 threads up to a preemption bound (line-level switch points, cooperative lock), plus every operation history up to a depth bound against a set model, listed from the creating thread, from a freshly started one and through subclasses'
 LEVEL_TEXT = ('SCHED: all interleavings of active_children() with concurrent worker creation/registration and completion up to the preemption bound, each run to completion, oracle = snapshot consistency during the call and exact agreement afterwards; SEQ: every history of create/finish/terminate/restart/list operations up to the depth bound on real thread workers (thorough: all six classes) against a set model; a 300-cycle history for retention')
 LEVEL_NOTE = 'switch points are line events in pyworkers/worker.py and lock operations; the GIL makes finer interleavings unobservable for this code; states = distinct (abstract state) reached by histories plus distinct schedules; histories on the process/remote classes are shorter (depth 3, thorough 4)'
 
